@@ -22,27 +22,10 @@ hook H1) is not available, so `genCons` is not compared with the C++ constraint 
 import AdaptaVerif.Lemmas.Nudge
 import AdaptaVerif.Lemmas.PinsAttach
 import AdaptaVerif.Check.Nudge
+import AdaptaVerif.Spec.Nudge
 namespace AdaptaVerif.Props.C10
-open AdaptaVerif.Model.Nudge AdaptaVerif.Lemmas.Nudge
+open AdaptaVerif.Model.Nudge AdaptaVerif.Lemmas.Nudge AdaptaVerif.Spec.Nudge
 open AdaptaVerif.Model.Pins AdaptaVerif.Spec.Pins AdaptaVerif.Check.Nudge
-
-/-- every generated constraint holds -/
-def AllHold (p : Params) (segs : List Seg) (sol : Sol) : Prop := ∀ c ∈ genCons p segs, c.holds sol
-
-/-- the pair gets the full separation distance: different connectors, and not a shared path with
-    a common end point while nudgeSharedPathsWithCommonEndPoint is off -/
-def FullGap (p : Params) (a b : Seg) : Prop :=
-  a.conn ≠ b.conn ∧ ¬ (p.commonEnd a.conn b.conn = true ∧ p.nudgeCommonEnd = false)
-
-theorem gapFor_full (p : Params) (a b : Seg) (h : FullGap p a b) : gapFor p a b = (p.sepDist, false) := by
-  obtain ⟨hne, hce⟩ := h
-  unfold gapFor
-  simp only [hne, if_false]
-  split_ifs with h1
-  · exfalso; apply hce
-    simp only [Bool.and_eq_true, Bool.not_eq_true'] at h1
-    exact h1
-  · rfl
 
 /-- (a) ∀ regions, ∀ solver outputs satisfying the generated constraints: ordered overlapping
     segments of different connectors end at least `sepDist` apart -/
@@ -87,6 +70,16 @@ theorem region_limits (p : Params) (segs : List Seg) (sol : Sol) (h : AllHold p 
     simp only [Cons.holds] at hc
     have := absR_le (hu hf u hm)
     linarith [this.2]
+
+/-- non-vacuity of `Satisfied` (same instance as above: channel variables at the limits) -/
+example : Satisfied ⟨10, true, fun _ _ => false, fun _ _ => false, 1/10000⟩
+    [⟨5, some 0, some 30, false, 1, 0, 100⟩, ⟨5, some 0, some 30, false, 2, 50, 150⟩]
+    ⟨fun i => if i = 0 then 0 else 10, fun _ => 0, fun _ => 30⟩ := by
+  intro i s hi
+  match i, hi with
+  | 0, hi => simp at hi; subst hi; simp [AdaptaVerif.Model.Nudge.absR]
+  | 1, hi => simp at hi; subst hi; simp [AdaptaVerif.Model.Nudge.absR]
+  | (n + 2), hi => simp at hi
 
 /-- (b') the position written back is inside `[minSpaceLimit, maxSpaceLimit]` -/
 theorem applied_in_limits (p : Params) (segs : List Seg) (sol : Sol) (h : AllHold p segs sol)
@@ -144,25 +137,6 @@ theorem sepAfter_bounds (d : Rat) (hd : 0 < d) (k : Nat) (hk : k ≤ 9) :
   constructor <;> linarith
 
 /-! ### route checkers -/
-
-/-- two polylines share a stretch of positive length: two distinct points lie on a segment of
-    each -/
-def SharedStretch (r1 r2 : List P2) : Prop :=
-  ∃ s ∈ segments r1, ∃ t ∈ segments r2, ∃ p q : P2, p ≠ q ∧
-    OnSeg s.1 s.2 p ∧ OnSeg s.1 s.2 q ∧ OnSeg t.1 t.2 p ∧ OnSeg t.1 t.2 q
-
-/-- a point of the 1-D interval between `a` and `b`, written as a convex combination -/
-theorem between_param (a b v : Rat) (h1 : min a b ≤ v) (h2 : v ≤ max a b) :
-    ∃ t : Rat, 0 ≤ t ∧ t ≤ 1 ∧ v = a + t * (b - a) := by
-  by_cases hab : a = b
-  · subst hab
-    rw [min_self] at h1; rw [max_self] at h2
-    exact ⟨0, le_refl 0, by norm_num, by linarith⟩
-  · obtain ⟨t0, t1⟩ := AdaptaVerif.Lemmas.PinsAttach.param_of_between a b v hab h1 h2
-    refine ⟨(v - a) / (b - a), t0, t1, ?_⟩
-    have hne : b - a ≠ 0 := sub_ne_zero.mpr (Ne.symm hab)
-    field_simp
-    ring
 
 /-- soundness of `collinearOverlap`: if the checker says yes, the two segments really have two
     distinct points in common -/
